@@ -96,6 +96,8 @@ def run(spec, rec):
             shape = tuple(fs.shape)
         ncom = int(rng.integers(0, 6))
         comments = ["comment %d: %s" % (i, "x" * int(rng.integers(0, 30))) for i in range(ncom)]
+        if ncom >= 2 and rng.random() < 0.5:
+            comments[int(rng.integers(ncom))] = str(rng.choice(["", " ", "   "]))     # a blank separator line is a comment line too
         prec = int(rng.choice([16, 16, 17, 18, 20]))
         desc = {"shape": list(shape), "values": vk, "nmask": int(np.asarray(fs.mask).sum()), "folded": folded, "labels": ids,
                 "ncomments": ncom, "precision": prec, "corners": corners, "layout": layout}
